@@ -24,12 +24,23 @@ Forms ==
     <<"r", "=", "n", "NL", "o">>, <<"4", "=", "p", "NL", "q">>, <<"s", "NL", "t">>,     \* a line break inside a value
     <<"0", "=", "a0">>, <<"-", "1", "=", "a1">>, <<"1", ".", "5", "=", "a2">> }         \* names a number parser accepts but that are no positive integers: strings
 
+\* a reduced alphabet for the deeper bound (one form of every kind, the ones whose interaction matters:
+\* positionals with and without blanks, a named one, numeric names 1..3 in both spellings, a name > 1000)
+FormsR ==
+  { <<"v">>, <<"SP", "v", "SP">>, <<"u", "NL">>, <<"x", "=", "a">>, <<"y", "=", "NL", "c", "NL">>,
+    <<"1", "=", "f">>, <<"2", "=", "g">>, <<"SP", "3", "SP", "=", "SP", "h">>, <<"0", "1", "=", "i">>,
+    <<"1", "0", "0", "1", "=", "m">>, <<"0", "=", "a0">> }
+
 Lists == UNION { [1..n -> Forms] : n \in 0..MaxLen }
+ListsR == { l \in [1..5 -> FormsR] : TRUE }
 
 VARIABLE args
 Init == args \in {l \in Lists : Ideal!Admissible(l)}
 Next == UNCHANGED args
 Spec == Init /\ [][Next]_args
+\* deeper bound: every list of exactly five arguments over the reduced alphabet
+InitR == args \in {l \in ListsR : Ideal!Admissible(l)}
+SpecR == InitR /\ [][Next]_args
 \* V direction: lists supplied in a file (only the admissible ones are cases)
 FileLists == LET raw == JsonDeserialize(IOEnv.LIST_FILE) IN {raw[i] : i \in 1..Len(raw)}
 InitF == args \in {l \in FileLists : Ideal!Admissible(l)}
